@@ -76,6 +76,13 @@ structure FTxn where
   base : Nat := 0
 deriving Repr
 
+/-- a stored broadcast set (`wallet.BroadcastedSet`): `expired` = `time.Since(BroadcastedAt) ≥
+MaxRebroadcastPeriod` at the time the wallet is started -/
+structure BSet where
+  expired : Bool
+  txns : List PTxn
+deriving Repr
+
 structure State where
   cfg : Cfg
   /-- `store.UnspentSiacoinElements()` (includes immature outputs) -/
@@ -90,7 +97,7 @@ structure State where
   poolV1 : List PTxn
   poolV2 : List PTxn
   /-- the store's broadcast sets -/
-  bsets : List (List PTxn)
+  bsets : List BSet
   /-- every transaction ever handed out, by handle (lets a script release or broadcast it) -/
   reg : List FTxn
   /-- ghost: the un-released requests since the last restart -/
@@ -410,7 +417,7 @@ def State.bcast (s : State) (h : Nat) (viaWallet : Bool) : State × Bool :=
       let s2 := { s1 with
         nextId := if t.base = 0 then s.nextId + p.outs.length else s.nextId
         reg := s1.reg.map fun r => if r.h == h then { r with base := base } else r }
-      (if viaWallet then { s2 with bsets := s2.bsets ++ [s.txnSet p] } else s2, true)
+      (if viaWallet then { s2 with bsets := s2.bsets ++ [(⟨false, s.txnSet p⟩ : BSet)] } else s2, true)
     else (s, false)
 
 /-- a transaction made outside this wallet instance that spends output `id` of the wallet (same
@@ -463,12 +470,20 @@ def State.addSet (s : State) (set : List PTxn) : State :=
       else if st.accepts true (p.ins.map (·.id)) then { st with poolV2 := st.poolV2 ++ [p] } else st) s
   else s
 
+/-- the stored sets `NewSingleAddressWallet` offers to the pool, in the store's order -/
+def State.reloadable (s : State) : List (List PTxn) := (s.bsets.filter fun b => !b.expired).map (·.txns)
+
+/-- the node was down for longer than MaxRebroadcastPeriod after a broadcast, or the clock moved
+on: the store holds a set that is too old (its transactions do not matter) -/
+def State.stale (s : State) : State := { s with bsets := s.bsets ++ [⟨true, []⟩] }
+
 /-- `NewSingleAddressWallet` (:1075-1121) over the same store: `locked` starts empty and every
 stored broadcast set is offered to the pool again.  `freshPool`: the manager is new as well (its
 pool is empty), otherwise the manager and its pool are the old ones. -/
 def State.restart (s : State) (freshPool : Bool) : State :=
   let s0 := { s with locked := fun _ => 0, out := [] }
-  s.bsets.foldl State.addSet (if freshPool then { s0 with poolV1 := [], poolV2 := [] } else s0)
+  -- :1114-1121: only the sets younger than MaxRebroadcastPeriod are offered; an old one is skipped
+  (s.reloadable).foldl State.addSet (if freshPool then { s0 with poolV1 := [], poolV2 := [] } else s0)
 
 /-! ### SplitUTXO (:859-998) -/
 
@@ -496,7 +511,7 @@ def State.splitPick (s : State) (minAmount : Nat) : Nat × Utxo :=
 def State.splitCommit (s : State) (t : FTxn) : State :=
   let p := t.toP s.nextId
   let s1 := { s.addPool p with nextId := s.nextId + p.outs.length }
-  let s2 := { s1 with bsets := s1.bsets ++ [s.txnSet p] }
+  let s2 := { s1 with bsets := s1.bsets ++ [(⟨false, s.txnSet p⟩ : BSet)] }
   let s3 := s2.lockUTXOs (t.ins.map (·.id))
   { s3 with reg := s3.reg ++ [t], out := s3.out ++ [t] }
 
@@ -541,6 +556,7 @@ inductive Op
   | env (utxos : List Utxo) (height cmHeight : Nat) (poolV1 poolV2 : List PTxn)
   | lag (k : Nat)
   | sync
+  | stale
 deriving Repr
 
 def State.step (S : Sorter) (s : State) : Op → State
@@ -556,6 +572,7 @@ def State.step (S : Sorter) (s : State) : Op → State
   | .env u h ch p1 p2 => { s with utxos := u, height := h, cmHeight := ch, poolV1 := p1, poolV2 := p2 }
   | .lag k => s.lag k
   | .sync => s.sync
+  | .stale => s.stale
 
 def State.run (S : Sorter) (s : State) (ops : List Op) : State := ops.foldl (State.step S) s
 
